@@ -295,6 +295,11 @@ static sb_error_t sb_i_buffer_ensure_free_space(sb_buffer_t* buf, size_t min_spa
     }
 
     desired_capacity = sb_buffer_capacity(buf);
+    if (desired_capacity == 0) {
+        /* zero-length view; doubling zero would never reach the required size */
+        desired_capacity = 1;
+    }
+
     old_size = sb_buffer_size(buf);
     new_size = old_size + min_space;
     if (new_size < old_size) {
